@@ -1,21 +1,9 @@
 //@ item canonical.rs const APPLICATION_X_WWW_FORM_URLENCODED
 //@ end
-//@ item canonical.rs struct ContentTypeCharset
-//@ end
 //@ item signature.rs struct SignatureOptions
 //@ end
 
-/// `get_content_type_and_charset` (canonical.rs; iterator-driven, NOT extracted): contract assumed. `content_type_of` is uninterpreted:
-/// how a Content-Type header value is split into media type and charset parameter is not verified here.
-pub uninterp spec fn content_type_of(entries: Seq<(HeaderName, HeaderValue)>) -> Option<(Seq<char>, Option<Seq<char>>)>;
-#[verifier::external_body]
-pub fn get_content_type_and_charset(headers: &HeaderMap<HeaderValue>) -> (r: Option<ContentTypeCharset>)
-    ensures
-        content_type_of(headers.entries) is None ==> r is None,
-        content_type_of(headers.entries) is Some ==> r is Some && r->Some_0.content_type@ == content_type_of(headers.entries)->Some_0.0
-            && (content_type_of(headers.entries)->Some_0.1 is None ==> r->Some_0.charset is None)
-            && (content_type_of(headers.entries)->Some_0.1 is Some ==> r->Some_0.charset is Some && r->Some_0.charset->Some_0@ == content_type_of(headers.entries)->Some_0.1->Some_0),
-{ unimplemented!() }
+// get_content_type_and_charset and the reference reading content_type_of: contracts/ctype.rs (verified in unit ctype)
 
 pub open spec fn FORM_TYPE() -> Seq<char> { "application/x-www-form-urlencoded"@ }
 /// does the request fold its form body into the query? (C12)
@@ -199,13 +187,46 @@ impl CanonicalRequest {
 //@ end
 
 /// `IntoRequestBytes` (signature.rs): `#[async_trait] async fn into_request_bytes(self) -> Result<Bytes, BoxError>`. `async fn` in a trait is outside
-/// Verus's subset: the trait is declared here with an associated future type (same call-site text `body.into_request_bytes().await`);
-/// `body_bytes` names what the conversion yields. The three impls in the crate are not verified by Verus (see DESIGN.md).
+/// Verus's subset: for the generic call in sigv4_validate_request the trait is declared here with an associated future type (same call-site
+/// text `body.into_request_bytes().await`); `body_bytes` names what the conversion yields.
 pub trait IntoRequestBytes: Sized {
     type Fut: Future<Output = Result<Bytes, BoxError>>;
     spec fn body_bytes(self) -> Result<Bytes, BoxError>;
     fn into_request_bytes(self) -> (f: Self::Fut)
         ensures f.awaited() ==> f@ == self.body_bytes();
+}
+
+/// The crate's three impls (C15 "body conversions"): their bodies are extracted verbatim into this synchronous twin of the trait; the one
+/// declared rewrite per function drops the `async` keyword (with `#[async_trait]` the body runs unchanged when the boxed future is awaited).
+/// Each is proved to hand over exactly the bytes it was given.
+pub trait IntoRequestBytesBody: Sized {
+    spec fn bytes_of(self) -> Seq<u8>;
+    fn into_request_bytes(self) -> (r: Result<Bytes, BoxError>)
+        ensures r is Ok && r->Ok_0.data == self.bytes_of(); //# C15 name=body_bytes_handed_over_unchanged
+}
+impl IntoRequestBytesBody for () {
+    open spec fn bytes_of(self) -> Seq<u8> { Seq::<u8>::empty() }
+//@ fn signature.rs impl IntoRequestBytes for () :: into_request_bytes
+//@ props C08 C15
+//@ ret r
+//@ replace 1 `async fn` => `fn`
+//@ end
+}
+impl IntoRequestBytesBody for Vec<u8> {
+    open spec fn bytes_of(self) -> Seq<u8> { self@ }
+//@ fn signature.rs impl IntoRequestBytes for Vec<u8> :: into_request_bytes
+//@ props C08 C15
+//@ ret r
+//@ replace 1 `async fn` => `fn`
+//@ end
+}
+impl IntoRequestBytesBody for Bytes {
+    open spec fn bytes_of(self) -> Seq<u8> { self.data }
+//@ fn signature.rs impl IntoRequestBytes for Bytes :: into_request_bytes
+//@ props C08 C15
+//@ ret r
+//@ replace 1 `async fn` => `fn`
+//@ end
 }
 
 /// the 15 minute window constant as a Duration
